@@ -763,15 +763,24 @@ def r18_6(ctx, prog, crate):
     if not ctx.check(bool(sums), "R18.6", ["format_bytes", "readable"], "cannot summarise format_bytes", b.where(0)):
         return
     sv = ("site", "util::fmt::scale_value")
+
+    def base_is_the_callers(e):
+        """bytes_format itself, or ScaleFormat::Bytes(bytes_format).bytes_format() (which R18.2 shows to be that value)"""
+        if e == ("arg", 3, ()):
+            return True
+        return e[0] == "site" and e[1].endswith("ScaleFormat::bytes_format") and len(e[3]) == 1 and e[3][0][0] == "adt" and \
+            e[3][0][2] == "Bytes" and tuple(e[3][0][3]) == (("arg", 3, ()),)
+
+    def scaled_of_the_callers(e, field):
+        return e[0] == "field" and e[1][:2] == sv and e[2] == (field,) and len(e[1][3]) == 2 and e[1][3][0] == ("arg", 1, ()) and base_is_the_callers(e[1][3][1])
     for n, sm in enumerate(sums):
         ff = [c for c in sm.calls if c[0] == "util::fmt::format_f64"]
         sx = [c for c in sm.calls if c[0] == "util::fmt::Scale::suffix"]
-        ok = len(ff) == 1 and len(ff[0][1]) == 2 and ff[0][1][1] == ("arg", 2, ()) and ff[0][1][0][0] == "field" and ff[0][1][0][1][:2] == sv and \
-            ff[0][1][0][2] == (0,) and tuple(ff[0][1][0][1][3]) == (("arg", 1, ()), ("arg", 3, ()))
+        ok = len(ff) == 1 and len(ff[0][1]) == 2 and ff[0][1][1] == ("arg", 2, ()) and scaled_of_the_callers(ff[0][1][0], 0)
         ctx.check(ok, "R18.6", ["format_bytes", "number-is-format_f64(scaled, sig_figs)"],
                   "a path of format_bytes does not print format_f64(scale_value(val, bytes_format).0, sig_figs) with the caller's sig_figs "
                   "(conditions %s)" % [str(c[0])[:60] for c in sm.conds], b.where(sm.blocks[-1]))
-        ok2 = len(sx) == 1 and sx[0][1][0][0] == "field" and sx[0][1][0][1][:2] == sv and sx[0][1][0][2] == (1,) and \
+        ok2 = len(sx) == 1 and scaled_of_the_callers(sx[0][1][0], 1) and \
             sx[0][1][1][0] == "adt" and sx[0][1][1][2] == "Bytes" and tuple(sx[0][1][1][3]) == (("arg", 3, ()),)
         ctx.check(ok2, "R18.6", ["format_bytes", "suffix-of-the-same-scale"], "the suffix does not come from the same scale_value result with "
                   "ScaleFormat::Bytes(bytes_format)", b.where(sm.blocks[-1]))
